@@ -6,7 +6,7 @@
 (* One action per public mutating call; read-only calls (Len, Has, Get, Each, *)
 (* EachSafe, Find, MarshalJSON) are observations of the state and are compared *)
 (* by the replay harness after every action.                                   *)
-EXTENDS Integers, Sequences, FiniteSets, TLC
+EXTENDS Integers, Sequences, FiniteSets, TLC, Json
 
 CONSTANTS Keys,      \* small key universe, e.g. {"k1","k2","k3"}
           Vals,      \* small value universe, e.g. {"v1","v2"}
@@ -93,6 +93,19 @@ RelativeOrderStable ==
 (* First result of Find(pred on keys P) and the Each sequence, as the spec defines them *)
 FindFirst(P) == LET hits == SelectSeq(order, LAMBDA x : x \in P)
                 IN IF hits = <<>> THEN "none" ELSE hits[1]
+
+\* Next relation for `tlc -simulate`: the kind of operation is drawn first (TLC would otherwise pick uniformly among
+\* all action instances, and the 64 subsets of Filter and Map would crowd out Set and Delete)
+SimNext == LET kind == RandomElement({"set", "set", "set", "update", "delete", "delete", "filter", "map"}) IN
+           CASE kind = "set"    -> \E k \in Keys, v \in Vals : Set(k, v)
+             [] kind = "update" -> \E k \in Keys, v \in Vals : Update(k, v)
+             [] kind = "delete" -> \E k \in Keys : Delete(k)
+             [] kind = "filter" -> \E P \in SUBSET Keys : Cardinality(P) >= Cardinality(Keys) - 2 /\ Filter(P)
+             [] OTHER           -> \E P \in SUBSET Keys, v \in Vals : MapOp(P, v)
+SimSpec == Init /\ [][SimNext]_vars
+
+\* emission for `tlc -simulate` (long random behaviours over a larger key universe): one line per state, in behaviour order
+Emit == PrintT(ToJson([n |-> nops, last |-> last, order |-> order, data |-> data]))
 
 \* VIEW used by the exhaustive configurations: nops and last only bound/label the search.
 View == <<order, data>>
